@@ -75,8 +75,23 @@ def cases(draw, tier="quick"):
         reqs.append([p, ident])
     # "late": how many of the records (with all their synonyms) are registered only AFTER the apps have been built and
     # have already served every request once - the apps must serve their converter as it is at request time
-    late = draw(st.sampled_from([0, 0, 1, 2]))
-    return {"spec": {"delimiter": d, "records": recs}, "requests": reqs, "late": min(late, n), "sibling": draw(st.integers(0, 3)) == 0}
+    late = min(draw(st.sampled_from([0, 0, 1, 2])), n)
+    # "late_style": how the late records arrive. 0 = name by name; 1 = the bare canonical pair first, then ONE merged record
+    # that is spelt with a secondary URI prefix as its own canonical one and carries the CURIE synonyms as synonyms
+    # (the merge must file every incoming name under the record it joins). Late records then get a synonym on both sides.
+    late_style = draw(st.integers(0, 1)) if late else 0
+    if late_style:
+        taken_p, taken_u = set(S.all_prefixes(recs)), {u for r in recs for u in [r["uri_prefix"], *r["uri_prefix_synonyms"]]}
+        for i, r in enumerate(recs[n - late:]):
+            if not r["prefix_synonyms"] and f"late{i}" not in taken_p:
+                r["prefix_synonyms"].append(f"late{i}")
+            if not r["uri_prefix_synonyms"] and r["uri_prefix"] + "late/" not in taken_u:
+                r["uri_prefix_synonyms"].append(r["uri_prefix"] + "late/")
+        known = S.all_prefixes(recs)
+        for r in recs[n - late:]:
+            for syn in r["prefix_synonyms"][:2]:
+                reqs.append([syn, draw(st.sampled_from(["1", "x/y", "0001"]))])
+    return {"spec": {"delimiter": d, "records": recs}, "requests": reqs, "late": late, "late_style": late_style, "sibling": draw(st.integers(0, 3)) == 0}
 
 
 def check(case, stats: Stats) -> None:
@@ -108,6 +123,10 @@ def check(case, stats: Stats) -> None:
                     raise Violation(f"GET {path!r} before the converter was extended: Flask {(r1.status_code, r1.headers.get('Location'))!r}, FastAPI {(r2.status_code, r2.headers.get('location'))!r}, expected {exp!r}")
             for r in recs[len(recs) - late:]:
                 conv.add_record(mk_record({"prefix": r["prefix"], "uri_prefix": r["uri_prefix"]}))
+                if case.get("late_style") and r["prefix_synonyms"] and r["uri_prefix_synonyms"]:
+                    conv.add_record(mk_record({"prefix": r["prefix"], "uri_prefix": r["uri_prefix_synonyms"][0], "prefix_synonyms": list(r["prefix_synonyms"]), "uri_prefix_synonyms": list(r["uri_prefix_synonyms"][1:])}), merge=True)
+                    stats.cls("late-record-merged-under-secondary-uri-prefix")
+                    continue
                 for syn in r["prefix_synonyms"]:
                     conv.add_prefix(syn, r["uri_prefix"], merge=True)
                 for syn in r["uri_prefix_synonyms"]:
